@@ -79,6 +79,8 @@ pub fn duration_ns(include_known: bool) -> BoxedStrategy<u64> {
             3 => (1u64..40).prop_map(|ms| ms * 1_000_000),
             1 => (1u64..5).prop_map(|s| s * 1_000_000_000),
             1 => (1u64..3).prop_map(|h| h * 3_600_000_000_000),
+            // "for every duration": the largest ones (Duration::MAX is cut to u64::MAX ns)
+            1 => prop_oneof![Just(u64::MAX), Just(u64::MAX - 1_000_000_000), Just(1u64 << 63), (0u64..1_000_000).prop_map(|x| u64::MAX / 2 + x)],
         ]
         .boxed()
     } else {
